@@ -52,6 +52,8 @@ package measurements
 // ---------------------------------------------------------------------------------------------
 // ExponentialAverageMeasurement. Ghost lo/hi are the smallest and largest sample since reset
 // (meaningful once count > 0); sum/count is the arithmetic mean during warm-up.
+//@ opaque emaFactor(window int) float64 = 2.0 / float64(window + 1)
+//@ lemma[C08,C18] ema_factor_range(window int): 1 <= window && window < 1<<31 ==> 0.0 < emaFactor(window) && emaFactor(window) <= 1.0 && emaFactor(window) == 2.0 / float64(window + 1)
 //@ ghost ExponentialAverageMeasurement.lo float64
 //@ ghost ExponentialAverageMeasurement.hi float64
 //@ type ExponentialAverageMeasurement
@@ -72,13 +74,14 @@ package measurements
 //@   assigns nothing
 
 //@ func (*ExponentialAverageMeasurement).Add
+//@   reveal emaFactor
 //@   requires sample_ok: isFinite(value) && 0.0 <= value
 //@   maintains[C04,C18] m
 //@   ghostset m.lo = ite(old(m.count) == 0, value, min(old(m.lo), value))
 //@   ghostset m.hi = ite(old(m.count) == 0, value, max(old(m.hi), value))
 //@   ensures[C18] smallest_largest: m.lo == ite(old(m.count) == 0, value, min(old(m.lo), value)) && m.hi == ite(old(m.count) == 0, value, max(old(m.hi), value))
 //@   ensures[C18] mean_in_warmup: old(m.count) < m.warmupWindow ==> m.count == old(m.count) + 1 && m.sum == old(m.sum) + value && m.value == m.sum / float64(m.count)
-//@   ensures[C18] ema_after: old(m.count) >= m.warmupWindow ==> m.count == old(m.count) && m.sum == old(m.sum) && m.value == old(m.value) * (1.0 - 2.0 / float64(m.window + 1)) + value * (2.0 / float64(m.window + 1))
+//@   ensures[C18] ema_after: old(m.count) >= m.warmupWindow ==> m.count == old(m.count) && m.sum == old(m.sum) && m.value == old(m.value) * (1.0 - emaFactor(m.window)) + value * emaFactor(m.window)
 //@   ensures[C18] returns_value: ret0 == m.value && ret1
 //@   ensures[C08,C18] between: old(m.count) >= m.warmupWindow ==> min(old(m.value), value) <= m.value && m.value <= max(old(m.value), value)
 //@   assigns m.value, m.sum, m.count, m.lo, m.hi
